@@ -29,7 +29,7 @@ def sample_scenarios(tier, kind):
 
 
 def full_space(chk):
-    res = run_tlc("PairTrace", "PairScen", workers=8, timeout=600)
+    res = run_tlc("PairTrace", "PairScen", workers=8, timeout=3000)
     chk.add_tlc("PairTrace(scenario space)", res, "the whole scenario space of frame / scale relations (classes only)")
 
 
